@@ -641,6 +641,12 @@ func runC10(w *c10World) error {
 				if e.Frame == nil {
 					return fmt.Errorf("event %d: frame event with nil frame\n%s", i, dump())
 				}
+				if e.SystemID() != e.Frame.GetSystemID() || e.ComponentID() != e.Frame.GetComponentID() || e.Message() != e.Frame.GetMessage() {
+					return fmt.Errorf("event %d: the frame event's SystemID()/ComponentID()/Message() (%d/%d/%T) disagree with its frame (%d/%d/%T)\n%s", i, e.SystemID(), e.ComponentID(), e.Message(), e.Frame.GetSystemID(), e.Frame.GetComponentID(), e.Frame.GetMessage(), dump())
+				}
+				if e.Frame.GetSystemID() != 50+w.specs[m[ch]].tag {
+					return fmt.Errorf("event %d: frame event says system %d, the frame on the wire came from system %d\n%s", i, e.Frame.GetSystemID(), 50+w.specs[m[ch]].tag, dump())
+				}
 				tag, idx, ok := identify(e.Frame)
 				if _, isHB := e.Frame.GetMessage().(*minimal.MessageHeartbeat); isHB {
 					tag, idx, ok = e.Frame.GetSystemID()-50, int(e.Frame.GetComponentID()), true
